@@ -158,6 +158,7 @@ def plan(s, orgport, sqport):
         method = "POST"; body = b"x" * 500
     elif kind == "httpver":
         version = "3.0"
+        has_req = False                      # rejected before an HttpRequest exists: the page is built from err->url
     elif kind == "zero":
         path = lab.spec_path({"close_before_reply": True}, rid) + "/" + mU
     elif kind == "oic":
@@ -377,7 +378,7 @@ def to_case(s):
 def model_blind(s):
     # markup in the URL is percent-encoded by the URL canonicaliser before it reaches the page (outside the anchored code);
     # the expander model is not given those values. The oracle still applies.
-    return s["hostile_url"] or s["kind"] in ("dns", "badcl", "httpver", "mgr", "mgrpw")
+    return s["hostile_url"]
 
 
 def oracle(s, obs):
